@@ -297,6 +297,12 @@ func (it *indexedMessageIterator) loadChunk(chunkIndex *ChunkIndex) error {
 		if err != nil {
 			return fmt.Errorf("failed to decode chunk data: %w", err)
 		}
+		// DecodeAll returns what the frame really holds. The record walk below is bounded by the
+		// declared size: if that is larger, it would run on into the slot's spare capacity, i.e.
+		// into stale records of the chunk that used the slot before.
+		if uint64(len(chunkSlot.buf)) != bufSize {
+			return fmt.Errorf("chunk declares %d uncompressed bytes but decompresses to %d", bufSize, len(chunkSlot.buf))
+		}
 	case CompressionLZ4:
 		if it.lz4Reader == nil {
 			it.lz4Reader = lz4.NewReader(bytes.NewReader(parsedChunk.Records))
